@@ -669,8 +669,8 @@ def gen_focus(rng, kind):
                         ops.append("%s1.%d.%d" % (k, b, rng.randrange(1, 100)))
                 else:
                     ops.append("yd")
-            if b == rx and rng.random() < 0.35:
-                ops.append("dr1")
+            if b == rx and rng.random() < 0.5:
+                ops.append(rng.choice(["dr1", "ri1"]))
             bodies.append(ops)
     bodies[0] = head + bodies[0] + tail
     return "prog none %s %d %s %s" % (gen_script(rng), rng.getrandbits(32), objs, "|".join(";".join(o) if o else "-" for o in bodies))
